@@ -75,11 +75,20 @@ def gen_dag(rng, n):
                 d.update([c1, c2])
                 consts.append((name, val))
             elif consts and r < 0.4:
+                # a literal combined with one named constant; the name comes first, last, or inside parentheses
                 c, v = rng.choice(consts)
                 add = rng.randint(0, 3)
-                sch.add(S.Const(name, v + add, '%s + %d' % (c, add)))
+                form = rng.choice(['n+l', 'l+n', 'l*n', '(l+n)', 'x+n', 'n*l'])
+                if form in ('l*n', 'n*l'):
+                    k = rng.randint(1, 3)
+                    val, txt = v * k, ('%d * %s' % (k, c) if form == 'l*n' else '%s*%d' % (c, k))
+                else:
+                    val = v + add
+                    txt = {'n+l': '%s + %d' % (c, add), 'l+n': '%d + %s' % (add, c), '(l+n)': '(%d + %s)' % (add, c),
+                           'x+n': '0x%X + %s' % (add, c)}[form]
+                sch.add(S.Const(name, val, txt))
                 d.add(c)
-                consts.append((name, v + add))
+                consts.append((name, val))
             elif enumerators and r < 0.7:
                 e, en, v = rng.choice(enumerators)
                 sch.add(S.Const(name, v, en))
